@@ -147,6 +147,11 @@ def apply(prog):
     def crate_of(name):
         return name.split("::", 1)[0]
 
+    # a new name in a scope from which a reference name has disappeared is more likely that function renamed than a
+    # helper extracted: leave it alone (rules that name the old function resolve it by its role)
+    present = {_norm(n) for n in prog.fns}
+    gone_scopes = {k.rsplit("::", 1)[0] for k in known if k not in present and "::{closure" not in k and "::promoted[" not in k and crate_of(k) in members}
+
     def is_async_wrapper(g):
         c = prog.fns.get(g.name + "::{closure#0}")
         return c is not None and bool(c.d.get("coroutine"))
@@ -154,7 +159,8 @@ def apply(prog):
     def is_helper(g):
         # (the outer function of an `async fn` only builds the future: rules look through those themselves)
         return (crate_of(g.name) in members and _norm(g.name) not in known and g.d.get("kind") in ("Fn", "AssocFn")
-                and not g.d.get("coroutine") and "::{closure" not in g.name and "::promoted[" not in g.name and not is_async_wrapper(g))
+                and not g.d.get("coroutine") and "::{closure" not in g.name and "::promoted[" not in g.name and not is_async_wrapper(g)
+                and _norm(g.name).rsplit("::", 1)[0] not in gone_scopes)
     helpers = [g for g in prog.fns.values() if is_helper(g)]
     prog.new_helpers = {}
     if not helpers:
